@@ -32,7 +32,7 @@ def run(tier):
                 cases.append({"entry": entry, "chan": rnd.choice(["unbuf", "buf"]), "profile": p, "data": d,
                               "pclass": "ok", "dclass": "unknown"})
     obs = proto.run_cases("c11", cases)
-    lines, byid = proto.to_trace(obs)
+    lines, byid = proto.to_trace(obs, "C11")
     rejected, tr = proto.validate_trace("c11", lines)
     for rid in sorted(rejected):
         o = byid[rid]
